@@ -1,5 +1,7 @@
 import QipVerif.Model.Route
 import QipVerif.Model.Decompose
+import QipVerif.Model.DecomposeF
+import QipVerif.Gen.DecompVariant
 /-!
 # Model of `ModelProcessor.transpile` (property C13)
 
@@ -110,9 +112,14 @@ def routeStage (N : Nat) (setup : Route.Setup) (gs : List Gate) : Except Route.E
   | .ok out => .ok (out.map (ofRoute cx))
   | .error e => .error e
 
+/-- the basis `"CNOT"` that `_decompose_multi_qubit_gates` hands to `resolve_gates`, as `resolve_gates` of THIS tree
+reads a string: `Gen.strExact` is regenerated from the source (`Gen/DecompVariant.lean`) — `false`: the string is
+searched for substrings (a raw gate named `NOT` passes), `true` (`fixes/C03-3`): it is the one-element list -/
+def cnotBasis : Decomp.BasisSpec := Decomp.normBasis Gen.strExact (.str .CNOT)
+
 /-- one iteration of `_decompose_multi_qubit_gates` (after `fixes/C13-1.patch`) -/
 def expandOne (T : Decomp.Tables) (g : Gate) : Except Decomp.Err (List Gate) :=
-  if g.qubits.length > 2 then Decomp.resolve T true (.str .CNOT) [g] else .ok [g]
+  if g.qubits.length > 2 then Decomp.resolve T true cnotBasis [g] else .ok [g]
 
 /-- `_decompose_multi_qubit_gates`: the first failing gate raises -/
 def preExpand (T : Decomp.Tables) : List Gate → Except Decomp.Err (List Gate)
